@@ -124,7 +124,17 @@ class MaskFromFilter(FnSpec):
 
 def make_specs():
     W = World()
-    return [MaskFromFilter(W), c04.QueueEvent(PROP)]
+    out = [MaskFromFilter(W), c04.QueueEvent(PROP)]
+    # the translation itself is filter-independent (frame), and two schedules of one path with different filters are
+    # different watches with their own emitters (watch identity includes the filter)
+    from specs import inotify_emitter, c13
+    out.append(inotify_emitter.QueueEvents(inotify_emitter.World(), PROP, want=("frame",)))
+    WW = c13.WatchWorld()
+    for n in ("key", "__eq__"):
+        s2 = c13.WatchSpec(WW, n)
+        s2.prop = PROP
+        out.append(s2)
+    return out
 
 
 def lemmas():
@@ -141,8 +151,10 @@ def lemmas():
 
 
 EXPECTED_CLAUSES = ["post[complete:FileDeletedEvent<-IN_MOVED_FROM]", "post[complete-recursive:FileModifiedEvent<-IN_CREATE]", "post[complete:FileSystemEvent<-IN_MODIFY]", "post[complete:DirModifiedEvent<-IN_DELETE]",
-                    "loop1.preserved[complete:FileCreatedEvent<-IN_CREATE]", "queue_event.post[queued iff", "lemma[default mask"]
+                    "loop1.preserved[complete:FileCreatedEvent<-IN_CREATE]", "queue_event.post[queued iff", "lemma[default mask",
+                    "queue_events.post[frame:pair:IN_MOVED_FROM+IN_MOVED_TO|ISDIR,recursive", "ObservedWatch.key.post[key is a triple"]
 CANARIES = [
+    {"name": "sub-events only if the filter selects the directory event", "file": FILE, "fn": "InotifyEmitter.queue_events", "find": "if event.is_directory and self.watch.is_recursive:", "replace": "if event.is_directory and self.watch.is_recursive and self._event_filter is None:"},
     {"name": "remove IN_MOVE from the created arm", "file": FILE, "fn": "InotifyEmitter.get_event_mask_from_filter", "find": "event_mask |= InotifyConstants.IN_MOVE | InotifyConstants.IN_CREATE\n", "replace": "event_mask |= InotifyConstants.IN_CREATE\n"},
     {"name": "isinstance -> exact class in queue_event", "file": "watchdog/observers/api.py", "fn": "EventEmitter.queue_event", "find": "any(isinstance(event, cls) for cls in self._event_filter)", "replace": "any(type(event) is cls for cls in self._event_filter)"},
 ]
